@@ -12,9 +12,28 @@ Obs4(n) == << <<"len", n>>, <<"marshal", n>>, <<"len", n>>, <<"marshal", n>> >>
 Watch(els) == Flat([i \in DOMAIN els |-> << <<"len", els[i].n>>, <<"marshal", els[i].n>> >>])
 TreeMap(els) == [x \in {els[i].n : i \in DOMAIN els} |-> els[CHOOSE i \in DOMAIN els : els[i].n = x].tree]
 \* top: the message; watched: children also observed standalone (their encodings must appear inside the parent intact)
+\* C13 quantifies over "any number of times and in any order": the order of the observers is varied by a deterministic
+\* function of the scenario and the seed (the judge's predicates do not depend on the order)
+WatchRev(els) == Flat([i \in DOMAIN els |-> << <<"marshal", els[Len(els) + 1 - i].n>>, <<"len", els[Len(els) + 1 - i].n>> >>])
+ObsOrder(top, watched) ==
+  LET h == (Len(top.ops) + 3 * Len(watched) + Seed) % 6  n == top.n  L == <<"len", n>>  M == <<"marshal", n>> IN
+  CASE h = 0 -> Watch(watched) \o <<L, M, L, M>>
+    [] h = 1 -> <<M, L, M, L>> \o Watch(watched)
+    [] h = 2 -> <<L, L, M, M>> \o WatchRev(watched)
+    [] h = 3 -> WatchRev(watched) \o <<M, M, L, L>>
+    [] h = 4 -> <<M>> \o Watch(watched) \o <<L, M, L>>
+    [] h = 5 -> <<L>> \o WatchRev(watched) \o <<M, L, M>> \o Watch(watched)
+\* C13 also covers values that are sized / encoded while still being built (a resend after a refinement, a size check before
+\* bundling): from the creation of the top-level object on, every API call is followed by a size query and an encoding of it.
+\* Applied to every other scenario (by op count and seed) and to every top-down history.
+IsNewOf(o, n) == o.op = "new" /\ o.as = n
+MidObs(ops, n) == IF \A i \in DOMAIN ops : ~IsNewOf(ops[i], n) THEN ops
+                  ELSE LET k == CHOOSE i \in DOMAIN ops : IsNewOf(ops[i], n) IN
+                       Flat([i \in DOMAIN ops |-> IF i >= k /\ i < Len(ops) THEN <<ops[i], ObsOp(n)>> ELSE <<ops[i]>>])
+MaybeMidObs(top) == IF (Len(top.ops) + Seed) % 2 = 0 THEN MidObs(top.ops, top.n) ELSE top.ops
 EmitK(fam, top, watched, kids) ==
-  PrintT(ToJson([k |-> "build", fam |-> fam, top |-> top.n, ops |-> top.ops,
-                 observe |-> Watch(watched) \o Obs4(top.n),
+  PrintT(ToJson([k |-> "build", fam |-> fam, top |-> top.n, ops |-> MaybeMidObs(top),
+                 observe |-> ObsOrder(top, watched),
                  kids |-> kids,
                  specwalk |-> WalkMsg(Enc(top.tree)),       \* design-level check: the two halves of OFWire.tla (Enc and Walk) agree on this message
                  trees |-> TreeMap(<<top>> \o watched)]))
@@ -151,7 +170,7 @@ NextN == \E tag \in Tags :
 \* top-down construction: a container is attached first and grows afterwards (framing and repeatability are still required;
 \* the eager length bookkeeping of some adders makes nested lengths stale, so only C01 / C13 are judged on this family)
 \* leaves: the innermost grown / attached elements in wire order; their standalone encodings must appear inside the message intact
-EmitTDK(leaves, top) == PrintT(ToJson([k |-> "build", fam |-> "T", nospec |-> TRUE, top |-> top.n, ops |-> top.ops,
+EmitTDK(leaves, top) == PrintT(ToJson([k |-> "build", fam |-> "T", nospec |-> TRUE, top |-> top.n, ops |-> MidObs(top.ops, top.n),
                               observe |-> Flat([i \in DOMAIN leaves |-> << <<"len", leaves[i]>>, <<"marshal", leaves[i]>> >>]) \o Obs4(top.n) \o Obs4(top.n),
                               kids |-> leaves, trees |-> [x \in {top.n} |-> [T |-> top.tree.T]]]))
 NextT == \E shape \in {"instr-then-actions", "ct-then-nat-ranges", "instr-then-ct-actions", "bucket-then-note", "pktout-then-learnspecs",
